@@ -436,6 +436,8 @@ def its_failure_results(repo, tier="quick"):
             cases += [(h1 + h2, t) for h1 in ITS_F_HEADS[:5] for h2 in ITS_F_HEADS[:5] for t in ITS_F_TAILS]
             cases += [(h, t1 + t2) for h in ITS_F_HEADS for t1 in ITS_F_TAILS for t2 in ITS_F_TAILS[1:4]]
             cases = [c for c in cases if len(c) > 2 or _its_depth_ok(c[0] + c[1])]
+            # (same scope as in the quick tier: last_command / last_result right after a failed one-shot query are not compared)
+            cases = [c for c in cases if len(c) > 2 or not ((c[0][-1] in ("XQ", "XU") and c[1][0] == "LC") or ("XU" in c[0] and "LR" in c[1]))]
         chunks = [cases[i:i + 4] for i in range(0, len(cases), 4)]
         out = []
         for r in parallel_map(_its_fail_chunk, chunks):
